@@ -58,6 +58,10 @@ type exch struct {
 	Upgrade  bool   `json:"upgrade,omitempty"`   // 101 Switching Protocols: Body is the raw stream that follows
 	Redirect []int  `json:"redirect,omitempty"`  // statuses of the redirect hops in front of the final response
 	DelayMs  int    `json:"pre_read_delay_ms,omitempty"` // slow consumer: wait before the first body read
+	Upload   int    `json:"upload_bytes,omitempty"`
+	Cut      bool   `json:"cut,omitempty"`    // the peer closes the connection after CutAt bytes of the response
+	CutAt    int    `json:"cut_at,omitempty"`
+	barrier  chan struct{} // the peer has seen the client process everything it sent: start reading the body only then
 	Proto  string   `json:"proto"` // h1 | h2 | h3
 	A      *aresp   `json:"resp"`
 	H1     *h1opts  `json:"h1,omitempty"`
@@ -186,6 +190,9 @@ func perform(c *req.Client, x *exch, url string, outDir string) (s seen) {
 			outFile = filepath.Join(outDir, "dl-"+nextID()+".bin")
 			r.SetOutputFile(outFile)
 		}
+		if x.Upload > 0 {
+			r.SetBodyBytes(bytes.Repeat([]byte("u"), x.Upload))
+		}
 		resp, err := r.Send(x.Method, url)
 		if err != nil {
 			s.CallErr = err.Error()
@@ -193,6 +200,12 @@ func perform(c *req.Client, x *exch, url string, outDir string) (s seen) {
 		if resp == nil || resp.Response == nil {
 			s.NoResp = true
 			return
+		}
+		if x.barrier != nil {
+			select {
+			case <-x.barrier:
+			case <-time.After(5 * time.Second):
+			}
 		}
 		s.Code, s.Status, s.Proto, s.CL = resp.StatusCode, resp.Status, resp.Proto, resp.ContentLength
 		s.Header = copyHeader(resp.Header)
@@ -251,6 +264,9 @@ func (x *exch) runH1(srv *wire.Server, c *req.Client, outDir string) {
 	cut := -1
 	if x.H1.Framing == wire.FrClose || x.H1.Close || x.Upgrade {
 		cut = len(x.wire) // send everything, then close
+	}
+	if x.Cut {
+		cut = x.CutAt
 	}
 	sc := &wire.Script{Wire: x.wire, CutAt: cut, Segs: x.segs}
 	srv.Register(id, sc)
@@ -352,7 +368,11 @@ func (x *exch) coqH1() string {
 	s := &x.s
 	ref := x.expectedBody()
 	hasBody := hk.CoqBool(x.Upgrade || !(x.Method == "HEAD" || !bodyAllowed(x.A.Code)))
-	pre := fmt.Sprintf("(H1Case %s %s %s %s %s %s", coqLit([]byte(x.Method)), x.A.coqBody(), coqPieces(x.pieces), hasBody, coqMode[x.Mode], coqPat(x.Pat))
+	cut := "None"
+	if x.Cut {
+		cut = fmt.Sprintf("(Some %d%%N)", x.CutAt)
+	}
+	pre := fmt.Sprintf("(H1Case %s %s %s %s %s %s %s", coqLit([]byte(x.Method)), x.A.coqBody(), coqPieces(x.pieces), cut, hasBody, coqMode[x.Mode], coqPat(x.Pat))
 	if s.NoResp {
 		return pre + " true 0%Z [] [] 0%Z [] {| x_err := true; x_bytes := None; x_stream := Lit []; x_stream_end := None; x_again := Lit []; x_again_ok := true; x_out := Lit [] |} [])"
 	}
@@ -365,7 +385,7 @@ func (x *exch) key() string {
 		b, _ := json.Marshal(x)
 		return fmt.Sprintf("%s|%s|%x", x.Proto, b, x.A.Body)
 	}
-	return fmt.Sprintf("%s|%s|%s|%v|%s|%x", x.Proto, x.Method, x.Mode, x.Pat, x.SegK, x.wire)
+	return fmt.Sprintf("%s|%s|%s|%v|%s|%v|%x", x.Proto, x.Method, x.Mode, x.Pat, x.SegK, x.CutAt, x.wire)
 }
 
 func (x *exch) sigBase() string {
